@@ -319,6 +319,8 @@ func runC07(p *Prog, r *Result) {
 	a.computeMoves()
 	r.Rule("R07d", "fill() advances the offset base by the cursor, once per call, before the cursor is reset (shared with C10 R10d): positions do not depend on where reads end", 1)
 	checkOffsetBase(p, r, p.Pkg("syntax"), "R07d")
+	r.Rule("R07f", "rune() moves the cursor one past the buffer whenever it answers the end-of-input sentinel, whether or not the buffer is empty: end positions do not depend on whether the last bytes arrived together with io.EOF", 1)
+	checkEOFCursor(p, r, p.Pkg("syntax"), "R07f")
 	r.Rule("R07e", "a field fill() increments on an empty read and compares with a limit is set back to zero when a read returns bytes (shared with C08)", 0)
 	if n := checkRetryCounterReset(p, r, p.Pkg("syntax"), "R07e"); n == 0 {
 		r.Notef("R07e: fill() keeps no count of empty reads on this tree (it retries forever on a reader that returns (0, nil)); the rule is armed by a control")
@@ -567,6 +569,8 @@ func onFillCycle(g *FGraph, b *FBlock, info *types.Info, fillFn *types.Func) boo
 }
 
 var c07Controls = []Control{
+	{Name: "eof-cursor-only-when-buffer-empty", Rule: "R07f", WantKey: "rune#the end-of-input cursor does not depend", File: "syntax/lexer.go",
+		Mutate: ctlReplaceAnywhere("\t\tp.bsp = uint(len(p.bs)) + 1\n\t\tp.r = runeEOF\n", "\t\tif len(p.bs) == 0 {\n\t\t\tp.bsp = 1\n\t\t}\n\t\tp.r = runeEOF\n")},
 	{Name: "empty-read-count-never-reset", Rule: "R07e", WantKey: "fill#emptyReads counts consecutive empty reads", File: "syntax/lexer.go",
 		Mutate: ctlChain(ctlReplaceAnywhere("\t\tif err == nil {\n\t\t\tgoto readAgain\n\t\t}\n", "\t\tif err == nil {\n\t\t\tif fillStats.emptyReads++; fillStats.emptyReads < 100 {\n\t\t\t\tgoto readAgain\n\t\t\t}\n\t\t\terr = io.ErrNoProgress\n\t\t\tp.readErr = err\n\t\t}\n"),
 			ctlAppendDecl("var fillStats struct{ emptyReads int }\n")),
